@@ -24,7 +24,7 @@ EXPLANATION = (
     ' Round 6: (10) after every parse_input call of the synchronous get_input that may leave bytes pending, _partial_codes is tested again before the function returns (the completion step is a loop).'
     ' (13) TAINT: text from the terminal reaches int() in escape.py only after an isascii() and isdigit() test of every field (fix 62201b6).'
     ' Round 7: (14) SIB: event-name words the decoder can put behind modifier words (mouse, meta) are looked for by containment; (15) the coordinates of an X10 mouse report are taken modulo 256.'
-    ' (16) PAIR: hook_event_loop() re-arms the completion timeout for bytes still pending after unhook_event_loop() removed the alarm.'
+    ' (16) PAIR: hook_event_loop() re-arms the completion timeout for bytes still pending after unhook_event_loop() removed the alarm; (17) FLOW: what woke the complete_wait wait (terminal or resize pipe) takes part in the wait_for_more flag of the parse after it (fix 4d24c54).'
 )
 NOT_DECIDED = (
     "That event names/coordinates are the documented ones for every sequence; equality of event lists under all cuts for value-dependent recognisers "
@@ -707,6 +707,53 @@ def rule_rehook_rearms(ctx: Ctx) -> RuleResult:
     return rr
 
 
+def rule_wake_reason(ctx: Ctx) -> RuleResult:
+    """The synchronous completion step waits complete_wait on *all* input descriptors - the terminal and the pipe
+    the SIGWINCH handler writes to.  Only the terminal staying silent for complete_wait means 'the timeout expired';
+    a wake-up by the resize pipe alone says nothing about the sequence.  So wherever a parse follows a
+    _wait_for_input_ready(self.complete_wait) with a computed wait_for_more, the list of descriptors that woke the
+    wait takes part in that flag.  Before fix 4d24c54 the result of the wait was dropped: ESC, a resize 150 ms
+    later, `[A` after another 150 ms (complete_wait 0.6) decoded as 'esc' ... instead of 'up'."""
+    from ..rules.defuse import DefUse
+
+    p = ctx.p
+    rr = RuleResult("FLOW", "C05.17", "the descriptors that ended a complete_wait wait take part in the wait_for_more flag of the parse that follows it", floor=1)
+    cls = p.cls("urwid.display._raw_display_base.Screen")
+    for fi in p.all_class_functions(cls):
+        waits = [c for c in fi.own_nodes() if isinstance(c, ast.Call) and isinstance(c.func, ast.Attribute) and c.func.attr == "_wait_for_input_ready" and c.args and "complete_wait" in ast.unparse(c.args[0])]
+        if not waits:
+            continue
+        du = DefUse(fi)
+        cfg = du.cfg
+        for w in waits:
+            wn = nodes_where(cfg, lambda s, w=w: s is w)
+            after = cfg.reachable(wn, labels=("n", "T", "F"))
+            for c in [c for c in fi.own_nodes() if isinstance(c, ast.Call) and isinstance(c.func, ast.Attribute) and c.func.attr == "parse_input"]:
+                v = next((k.value for k in c.keywords if k.arg == "wait_for_more"), c.args[3] if len(c.args) > 3 else None)
+                cn = nodes_where(cfg, lambda s, c=c: s is c)
+                if v is None or (isinstance(v, ast.Constant) and v.value is not False) or not any(n in after for n in cn):
+                    continue  # the parse keeps waiting: nothing is decoded early
+                # names the flag is computed from, followed through their reaching definitions
+                seen, todo, uses_wait = set(), [(v, cn[0])], False
+                while todo and not uses_wait:
+                    e, at = todo.pop()
+                    if any(x is w for x in ast.walk(e)):
+                        uses_wait = True
+                        break
+                    for x in ast.walk(e):
+                        if isinstance(x, ast.Name) and isinstance(x.ctx, ast.Load):
+                            for val, _how, dn in du.reaching(x.id, at):
+                                if (x.id, dn.id) in seen:
+                                    continue
+                                seen.add((x.id, dn.id))
+                                if val is not None:
+                                    todo.append((val, dn))
+                rr.inst(f"{short(fi)}: {norm(c, 40)}", True, {"wait": norm(w, 50), "parse": norm(c, 70), "flag_uses_wake_reason": uses_wait})
+                if not uses_wait:
+                    rr.add(finding("FLOW", fi, c, f"`{norm(c, 70)}` decides wait_for_more without looking at what `{norm(w, 50)}` returned: the wait also ends when the resize pipe becomes readable, so a SIGWINCH inside the completion window makes the pending bytes decode as they stand (ESC | resize | [A gives 'esc', '[', 'A') although the timeout has not expired", construct=f"{fi.name}: wake-up reason not part of wait_for_more"))
+    return rr
+
+
 def run(ctx: Ctx):
     p = ctx.p
     out = [
@@ -736,6 +783,7 @@ def run(ctx: Ctx):
     out.append(rule_digits_only(ctx))
     out.append(rule_x10_coordinates(ctx))
     out.append(rule_rehook_rearms(ctx))
+    out.append(rule_wake_reason(ctx))
     from ..rules import nameprefix
 
     out.append(nameprefix.run_nameprefix(ctx.p, "C05.14", ("urwid.display", "urwid.util", "urwid.event_loop.main_loop"), floor=3))
@@ -747,6 +795,8 @@ from ..mutants import Mut  # noqa: E402
 _E = "urwid/display/escape.py"
 _R = "urwid/display/_raw_display_base.py"
 MUTANTS = [
+    Mut("sync-completion-ignores-wake-reason", "urwid/display/_raw_display_base.py", "urwid.display._raw_display_base.Screen.get_input", "wait_for_more=len(codes) > pending or resize_only)", "wait_for_more=len(codes) > pending)", "FLOW|display._raw_display_base.Screen.get_input|get_input: wake-up reason not part of wait_for_more"),
+    Mut("twin-sync-completion-wake-reason-inline", "urwid/display/_raw_display_base.py", "urwid.display._raw_display_base.Screen.get_input", "wait_for_more=len(codes) > pending or resize_only)", "wait_for_more=len(codes) > pending or ready == [self._resize_pipe_rd.fileno()])", twin=True),
     Mut("rehook-forgets-pending-bytes", "urwid/display/_posix_raw_display.py", "urwid.display._posix_raw_display.Screen.hook_event_loop", "        if self._partial_codes:\n            # an incomplete sequence is still pending and unhook_event_loop() removed its completion alarm:\n            # parse again (with whatever arrived since), which sets a new alarm or decodes what is there\n            event_loop.alarm(0, wrapper)\n", "", "PAIR|display._posix_raw_display.Screen.hook_event_loop|pending bytes lose their timeout across unhook / hook"),
     Mut("x10-coordinates-without-modulo", _E, "KeyqueueTrie.read_mouse_info", "        x, y = (keys[1] - 33) % 256, (keys[2] - 33) % 256  # supports 0-255", "        x, y = keys[1] - 33, keys[2] - 33", "BOUND|display.escape.KeyqueueTrie.read_mouse_info|X10 coordinate x not modulo 256"),
     Mut("meta-fold-test-as-prefix", _E, "process_keyqueue", 'run[0].find("meta ") >= 0', 'run[0].startswith("meta ")', "SIB|display.escape.process_keyqueue|'meta' tested as a prefix"),
@@ -756,8 +806,8 @@ MUTANTS = [
     Mut("raw-input-drain-ignores-eof", "urwid/display/_posix_raw_display.py", "urwid.display._posix_raw_display.Screen._read_raw_input", "                data = os.read(fd, 1024)\n                if not data:\n                    # end of file: the descriptor stays \"readable\" forever\n                    break\n                chars.extend(data)", "                chars.extend(os.read(fd, 1024))", "PROG|display._posix_raw_display.Screen._read_raw_input"),
     Mut("sgr-mouse-prefers-press-terminator", _E, "KeyqueueTrie.read_sgrmouse_info", "        value = \"\"\n        pos_m = 0\n        found_m = False\n        for k in keys:\n            value += chr(k)\n            if k in {ord(\"M\"), ord(\"m\")}:\n                found_m = True\n                break\n            pos_m += 1\n        if not found_m:", "        value = \"\".join(chr(k) for k in keys)\n        pos_m = value.find(\"M\")\n        if pos_m < 0:\n            pos_m = value.find(\"m\")\n        found_m = pos_m >= 0\n        value = value[: pos_m + 1]\n        if not found_m:", "SIB|display.escape.KeyqueueTrie.read_sgrmouse_info"),
     Mut("sync-get-input-holds-partial-forever", "urwid/display/_raw_display_base.py", "urwid.display._raw_display_base.Screen.get_input", "        while self._partial_codes:\n", "        while False:\n", "PASS|display._raw_display_base.Screen.get_input"),
-    Mut("sync-get-input-second-parse-still-waits", "urwid/display/_raw_display_base.py", "urwid.display._raw_display_base.Screen.get_input", "self.parse_input(None, None, codes, wait_for_more=len(codes) > pending)", "self.parse_input(None, None, codes)", "PASS|display._raw_display_base.Screen.get_input"),
-    Mut("twin-sync-get-input-constant-false", "urwid/display/_raw_display_base.py", "urwid.display._raw_display_base.Screen.get_input", "self.parse_input(None, None, codes, wait_for_more=len(codes) > pending)", "self.parse_input(None, None, codes, wait_for_more=False)", twin=True),
+    Mut("sync-get-input-second-parse-still-waits", "urwid/display/_raw_display_base.py", "urwid.display._raw_display_base.Screen.get_input", "self.parse_input(None, None, codes, wait_for_more=len(codes) > pending or resize_only)", "self.parse_input(None, None, codes)", "PASS|display._raw_display_base.Screen.get_input"),
+    Mut("sync-get-input-constant-false", "urwid/display/_raw_display_base.py", "urwid.display._raw_display_base.Screen.get_input", "self.parse_input(None, None, codes, wait_for_more=len(codes) > pending or resize_only)", "self.parse_input(None, None, codes, wait_for_more=False)", "FLOW|display._raw_display_base.Screen.get_input|get_input: wake-up reason not part of wait_for_more"),
     Mut("meta-branch-only-knows-mouse-tuples", _E, "process_keyqueue", "        if isinstance(run[0], tuple):", "        if urwid.util.is_mouse_event(run[0]):", "KIND|display.escape.process_keyqueue"),
     Mut("meta-decode-never-waits", _E, "process_keyqueue", "run, remaining_codes = process_keyqueue(codes[1:], more_available)", "run, remaining_codes = process_keyqueue(codes[1:], False)", "FLAG-FWD|display.escape.process_keyqueue"),
     Mut("mouse-info-no-more-input", _E, "KeyqueueTrie.read_mouse_info", "        if len(keys) < 3:\n            if more_available:\n                raise MoreInputRequired()\n            return None", "        if len(keys) < 3:\n            return None", "PAIR|display.escape.KeyqueueTrie.read_mouse_info"),
